@@ -21,6 +21,24 @@ Open Scope Q_scope.
 """
 
 
+def _entropy(state, n, dev_wires, ws):
+    idx = [dev_wires.index(w) for w in ws]
+    psi = np.moveaxis(np.asarray(state).reshape([2] * n), idx, range(len(idx))).reshape(2 ** len(idx), -1)
+    ev = np.linalg.eigvalsh(psi @ psi.conj().T)
+    ev = ev[ev > 1e-12]
+    return float(-np.sum(ev * np.log(ev)))
+
+
+def expected70(state, n, dev_wires, m):
+    """exact value of a measurement from the exact state (entropies: natural logarithm, as the measurements default)"""
+    if m["kind"] == "vn":
+        return _entropy(state, n, dev_wires, m["wires"])
+    if m["kind"] == "mi":
+        return (_entropy(state, n, dev_wires, m["wires0"]) + _entropy(state, n, dev_wires, m["wires1"])
+                - _entropy(state, n, dev_wires, list(m["wires0"]) + list(m["wires1"])))
+    return expected(state, n, dev_wires, m)
+
+
 def chi2_sf(x, k):
     # survival function of chi-square via regularised upper incomplete gamma (series / continued fraction)
     from math import lgamma, exp, log
@@ -64,7 +82,7 @@ def run(ctx):
     nsamp = 0
     for r, st in zip(okruns, states):
         for m, res in zip(r["meas"], r["results"]):
-            got, exp = arr(res), expected(st, r["n"], r["dev_wires"], m)
+            got, exp = arr(res), expected70(st, r["n"], r["dev_wires"], m)
             if m["kind"] == "state":      # global phase of a stabilizer state vector is not fixed by the tableau
                 ov = abs(np.vdot(np.asarray(exp), np.asarray(got)))
                 err = abs(ov - 1.0)
